@@ -683,11 +683,19 @@ func (h *hist) genParamProposal() prop {
 			v := genBoolJSON(rng)
 			chs = append(chs, paramproposal.NewParamChange("rvesting", "EnableVesting", v))
 			ds = append(ds, "enable:"+v)
-		case w < 92:
+		case w < 86:
 			v := genBoolJSON(rng)
 			chs = append(chs, paramproposal.NewParamChange("aggregate", pickStr(rng, "EnableAggregate", "EnableEVMHook"), v))
 			ds = append(ds, "aggregate:"+v)
 			sub = "aggregate"
+		case w < 92:
+			// the EVM's own switches: contract creation / calls refused for everybody, the modules included. Proposals that
+			// were dry-run while they were on execute after they went off (and the other way round)
+			k := pickStr(rng, "EnableCreate", "EnableCall")
+			v := pickStr(rng, "false", "false", "true")
+			chs = append(chs, paramproposal.NewParamChange("evm", k, v))
+			ds = append(ds, "evm:"+k+"="+v)
+			sub = "evm"
 		case w < 96:
 			chs = append(chs, paramproposal.NewParamChange(pickStr(rng, "rvesting", "aggregate"), pickStr(rng, "Nope", "enablevesting", " "), "true"))
 			ds = append(ds, "unknown-key")
